@@ -56,7 +56,7 @@ def names(tier, seed):
         return n2 + rnd.sample(n3, 30)
     n4 = []
     ch = term_choices(4)
-    while len(n4) < 200:
+    while len(n4) < 80:
         terms = tuple(rnd.choice(ch) for _ in range(4))
         if reachable_all(terms) and any(t == "r" for t in terms):
             nm = "ir:4:" + ".".join(terms)
